@@ -350,6 +350,34 @@ func cmdCheck(args []string) int {
 	for _, msg := range immutableCoverage(P, CS, *prop) {
 		violation("lock.coverage:"+truncate(msg, 80), map[string]interface{}{"obligation": "lock.coverage", "error": msg}, false)
 	}
+	// contract-level axioms with a proof method: obligations of this check when some verification condition used them
+	{
+		used := map[string]bool{}
+		for _, c := range ctxs {
+			for a := range c.axiomsUsed {
+				used[a] = true
+			}
+		}
+		anyProved := false
+		for _, ax := range CS.Axioms {
+			if ax.Proof != "" && used[ax.Name] {
+				anyProved = true
+			}
+		}
+		if anyProved {
+			rep := &funcReport{ID: "axioms:proved", Arith: "int"}
+			reports = append(reports, rep)
+			repByFn[rep.ID] = rep
+			c, n, err := verifyAxioms(P, CS, used)
+			if err != nil {
+				rep.Error = err.Error()
+				violation("unverifiable:"+rep.ID, map[string]interface{}{"obligation": "vc-generation", "function": rep.ID, "error": err.Error()}, false)
+			} else {
+				rep.Notes = append(rep.Notes, fmt.Sprintf("%d contract-level axioms discharged here (directly or by induction over the naturals) from the axioms declared before them", n))
+				ctxs = append(ctxs, c)
+			}
+		}
+	}
 	for _, msg := range atomicCoverage(P, CS, *prop) {
 		violation("lock.atomic:"+truncate(msg, 80), map[string]interface{}{"obligation": "lock.atomic", "error": msg}, false)
 	}
@@ -444,7 +472,16 @@ func cmdCheck(args []string) int {
 	for k := range assumed {
 		assumedL = append(assumedL, k)
 	}
+	provedAx := map[string]string{}
+	for _, ax := range CS.Axioms {
+		if ax.Proof != "" {
+			provedAx[ax.Name] = ax.Proof
+		}
+	}
 	for k := range axioms {
+		if m, ok := provedAx[k]; ok {
+			k += " (not assumed: discharged here as obligation axiom." + k + ", " + m + ")"
+		}
 		axiomL = append(axiomL, k)
 	}
 	sort.Strings(assumedL)
